@@ -15,3 +15,11 @@ package rollingseed
 //@ ensures forall q Bz :: q != types.RollingSeedStoreKey ==> Store_rollingseed[q] == old(Store_rollingseed)[q]
 //@ ensures len(ctx.HeaderHash()) == 0 ==> Store_rollingseed == old(Store_rollingseed)
 //@ ensures len(ctx.HeaderHash()) > 0 ==> Store_rollingseed[types.RollingSeedStoreKey][31] == ctx.HeaderHash()[0] && (forall j :: 0 <= j && j < 31 ==> Store_rollingseed[types.RollingSeedStoreKey][j] == old(Store_rollingseed)[types.RollingSeedStoreKey][j + 1])
+
+// ---- C02 / C14: the module's ABCI entry point returns exactly what its blocker returned --------------------------------
+// (an error of the blocker must reach the SDK, which aborts the block; swallowing it would commit whatever the failed
+// blocker had already written - e.g. a fee share taken from the fee collector but only partly paid out)
+//@ func (am AppModule) BeginBlock
+//@ may_panic calls
+//@ modifies *
+//@ forwards BeginBlocker
